@@ -30,9 +30,9 @@ CHECKS = {
         note=TB),
     "C09": dict(
         cat="exploration", ref="DESIGN.md §4.3", engine="history-sim",
-        technique="deterministic simulation: seeded field-operation histories (both build configurations) reaching unreduced representations; per-step GF(p) reference oracle and 2^52 limb-bound invariant",
+        technique="deterministic simulation: seeded field-operation histories (both build configurations) reaching unreduced representations, plus a seeded objective-guided search (hill-climb over histories maximising limb sizes); per-step GF(p) reference oracle and 2^52 limb-bound invariant",
         text="field.Element has no raw constructor, so every representation other than SetBytes output is the product of an operation chain; the check "
-             "runs seeded histories over 8-16 Element slots (half biased to carry-free chains that maximise limbs), under the default (assembly) and the "
+             "runs seeded histories over 8-16 Element slots (half biased to carry-free chains that maximise limbs; one run in 64 is a hill-climb over histories whose objective is limb size, ending in a tail that feeds the largest representations found to all nine operations), under the default (assembly) and the "
              "purego build, compares each of the nine operations with GF(p) arithmetic on the pre-state values and monitors the documented 2^52 limb bound on "
              "every written element (also inside Points in the other checks). A search over reachable representations, not a bound proof.",
         note=TB + " The universally quantified overflow obligation is an interval-analysis question and is not claimed."),
